@@ -22,7 +22,7 @@ from vlib.gen import rhash
 
 PROPERTY = "C18"
 LEVEL = "exploration"
-TIMEOUT = {"quick": 900, "thorough": 5400}
+TIMEOUT = {"quick": 1500, "thorough": 7200}
 RULE = (
     "entry points x spec field x argument order: every public function taking >= 2 arrays (listed in ENTRY_POINTS, cross-checked "
     "against the public namespaces by signature introspection) x each of the 7 Spec fields differing alone x both orders, plus "
